@@ -153,6 +153,10 @@ def checkNonWsPara (op : String) (od : Options Int) (text out : List Int) (hyphe
   if good || good2 then "ok"
   else if !wsStable ([0x20] ++ flatText (flatText text od.paraSep) od.lineSep ++ [0x20]) then
     s!"fail:C07 not-WsStable input: non-whitespace clusters changed by {op} (paragraph mode)"
+  else if (op == "Align" || op == "Justify") && (od.lineSep.head? == some 0x20 || od.lineSep.getLast? == some 0x20) then
+    -- finding D19: the placeholder SPACES that stand in for the paragraph separator's affixes complete a line
+    -- separator that begins or ends with a space; the removal by count then deletes text
+    s!"fail:C07 line separator beginning or ending with U+0020 in paragraph mode: placeholder spaces were taken for a line separator, non-whitespace clusters changed by {op}"
   else if !sepsIndependent od ∧ !(od.paraSep.length % od.lineSep.length == 0 ∧
       (List.replicate (od.paraSep.length / od.lineSep.length) od.lineSep).flatten == od.paraSep) then
     "skip:separators-overlap"
@@ -326,7 +330,13 @@ def layoutStep (pid : String) (a : List String) (src : Obs) (res : Obs) : String
       | ["collapse", _, o] => bordered (sepOf o)
       | ["indent", _, _, o] => bordered (sepOf o)
       | _ => false
-    if lineWise then (match res with | .err k => s!"fail:C18 operation failed ({k})" | _ => "skip:bordered-separator") else
+    -- a line separator made of spaces only: lines are undefined, but whether the NON-WHITESPACE clusters
+    -- survive (C07) does not depend on the decomposition into lines (finding D19)
+    let blankSep := match a with
+      | ["wrap", _, _, o] | ["justify", _, _, o] | ["collapse", _, o] | ["align", _, _, _, o] =>
+        let sp := sepOf o; !sp.isEmpty && sp.all (· == 0x20) && pid == "C07"
+      | _ => false
+    if (lineWise && !blankSep) then (match res with | .err k => s!"fail:C18 operation failed ({k})" | _ => "skip:bordered-separator") else
     match a, res with
     | ["wrap", _, w, o], .ed out _ _ _ =>
       match parseInt w, effOpts so o with
